@@ -4,6 +4,7 @@ from __future__ import annotations
 from collections import defaultdict
 
 from . import terms as T
+from .anchors import is_helper
 from .core import AnalysisError, Project
 from .symexec import Executor, Event
 from .terms import tag
@@ -54,8 +55,9 @@ class Effects:
 
             def inline(cq, depth):
                 cf = self.p.funcs.get(cq)
-                return cf is not None and cf.module.name == mod and cf.name.startswith('_') \
-                    and not cf.name.startswith('__') and cq != q
+                return cq != q and (is_helper(self.p, cq) or (
+                    cf is not None and cf.module.name == mod and cf.name.startswith('_')
+                    and not cf.name.startswith('__')))
             ex = Executor(self.p, inline=inline, max_depth=7)
             self._deep[key] = (ex, ex.run(f, binding or {}))
         return self._deep[key]
